@@ -18,7 +18,7 @@ class C16(pw.P21Check):
     level = "exploration"
     label = "c16"
     rule = ("plan = conforming population (generator of C01) read from an exchange file, then a seeded assignment of editing states {complete, "
-            "incomplete, new, delete (only to instances nobody refers to)} and seeded clearing of required attributes on instances marked incomplete; "
+            "incomplete, new, delete (only to instances nobody refers to)} and seeded clearing of required attributes (mostly on instances marked incomplete, sometimes on complete and new ones); "
             "history save(t1) -> load in a fresh session -> save(t2), repeated 1..3 times under seeded delivery schedules and clock values. "
             "Oracle: after every load the population equals the saved one minus the deleted instances (ids, types, values incl. the cleared ones), each "
             "instance's state is the assigned one, and consecutive saves are byte-identical outside the time stamp. "
@@ -55,7 +55,10 @@ class C16(pw.P21Check):
         sch = self.schema_of(plan)
         cleared = []
         for x in insts:
-            if states.get(str(x["id"])) == "I" and r.random() < 0.6:
+            st = states.get(str(x["id"]))
+            # the state is an editing flag set by the application: a missing value is most common on "incomplete" instances, but
+            # nothing ties it to that state - complete and new instances may lack a value too and must come back in THEIR state
+            if st != "D" and r.random() < (0.6 if st == "I" else 0.2):
                 # clear one required, non-derived attribute
                 cands = []
                 for pi, p in enumerate(x["parts"]):
@@ -85,7 +88,7 @@ class C16(pw.P21Check):
         plan["files"] = {"a.p21": text}
         ids = set(x["id"] for x in plan["model"]["insts"])
         plan["states"] = {k: v for k, v in plan["states"].items() if int(k) in ids}
-        plan["cleared"] = [c for c in plan["cleared"] if c["id"] in ids and plan["states"].get(str(c["id"])) == "I"]
+        plan["cleared"] = [c for c in plan["cleared"] if c["id"] in ids and plan["states"].get(str(c["id"])) != "D"]
         return plan
 
     def run(self, plan):
